@@ -200,7 +200,29 @@ def run(ctx: Ctx):
     ok = ctx.proof_stage("Properties/C09.v")
     if not ok:
         ctx.violation("theorems of Properties/C09.v no longer check", {"broken": "Properties/C09.v"}, found_input=False)
-    pipelines, okd, cexd = translator_stage(ctx)
     from harness import c09_x
+    if ctx.replay:
+        rp = json.loads(open(ctx.replay).read())
+        feats = rp.get("features", {})
+        if "field" in feats and "value" in feats and feats.get("field") != "comparison_description" \
+                and isinstance(rp.get("case", {}).get("level"), dict):
+            lvl = dict(rp["case"]["level"])
+            f = feats["field"]
+            v = lvl.pop(f, feats["value"])
+            extra = {k: x for k, x in lvl.items() if k not in ("sql_condition", "label_for_charts")}
+            okw, got, _ = c09_x.level_witness(f, v, extra)
+            ctx.count_case(("replay", f, repr(v)), True, {"replay": ctx.replay, "result": got})
+            if not okw:
+                ctx.violation(f"replay: {f}={v!r} does not survive construction / save / reload: {got}",
+                              {"case": rp["case"], "implementation": got}, feats)
+            return
+        if feats.get("field") == "comparison_description":
+            okw, got = c09_x.description_witness(feats.get("route", "dict"))
+            ctx.count_case(("replay", "description"), True, {"replay": ctx.replay, "result": got})
+            if not okw:
+                ctx.violation(f"replay: comparison description does not survive: {got}",
+                              {"case": rp.get("case"), "implementation": got}, feats)
+            return
+    pipelines, okd, cexd = translator_stage(ctx)
     flags = c09_x.report_pipeline_failures(ctx, pipelines, okd, cexd)
     c09_x.correspondence(ctx, pipelines, flags)
